@@ -92,21 +92,41 @@ SpecD == InitD /\ [][Next]_case
 \* whatever is nested and however deep, the recursion of the ideal design stays within
 \* the limit: the expansion path holds at most L entries when a construct is admitted (the
 \* admitted construct pushes a few more), one substitution pass walks down at most L levels
-PeakBoundedR(r) == r.st.peak <= 2 * L + 8
+PeakBoundedR(r) == r.st.peak <= OverrunAt
+IsOverrun(a) == \E i \in 1..Len(a.st.msgs) : a.st.msgs[i].kind = "overrun"
 Cls(r) == IF \E i \in 1..Len(r.out) : r.out[i] = "<ERR:depth>" THEN "cut" ELSE "plain"
 \* a ladder that is deeper than the limit in one piece of text is cut
 DeepIsCutR(c, r) ==
   (\E i \in 1..Len(c.segs) : c.segs[i].n > L) => \E j \in 1..Len(r.st.msgs) : r.st.msgs[j].sortid = "core/1115"
 
-RECURSIVE LibSrc(_, _)
-LibSrc(c, i) == IF i > Len(c.segs) THEN <<>> ELSE <<[name |-> DName[i], body |-> Src(IncludablePart(c.lib[DName[i]]))]>> \o LibSrc(c, i + 1)
+(* ---------------- the case as source text ---------------- *)
+\* The syntax trees are up to several thousand levels deep, so a ladder is printed in
+\* factored form: the source atoms of one rung of each kind of the pattern before and after
+\* the position that holds the next rung, and the source of the core; the text of the segment is
+\* open(1) open(2) .. open(n) core close(n) .. close(1).  For ladders of at most 2L rungs the
+\* complete rendering Src(..) is printed as well (the harness checks its assembly against it).
+Hole == "@HOLE@"
+RungSrc(k) == Src(Rung(k, T(Hole)))
+HolePos(s) == CHOOSE i \in 1..Len(s) : s[i] = Hole
+Open(k) == LET s == RungSrc(k) IN SubSeq(s, 1, HolePos(s) - 1)
+Close(k) == LET s == RungSrc(k) IN SubSeq(s, HolePos(s) + 1, Len(s))
+RECURSIVE Opens(_, _), Closes(_, _)
+Opens(pat, i) == IF i > Len(pat) THEN <<>> ELSE <<Open(pat[i])>> \o Opens(pat, i + 1)
+Closes(pat, i) == IF i > Len(pat) THEN <<>> ELSE <<Close(pat[i])>> \o Closes(pat, i + 1)
+Small(c) == \A i \in 1..Len(c.segs) : c.segs[i].n <= 2 * L
+RECURSIVE SegSrc(_, _)
+SegSrc(c, i) ==
+  IF i > Len(c.segs) THEN <<>>
+  ELSE <<[name |-> DName[i], pat |-> c.segs[i].pat, n |-> c.segs[i].n,
+          opens |-> Opens(c.segs[i].pat, 1), closes |-> Closes(c.segs[i].pat, 1), core |-> Src(SegCore(c.segs, i)),
+          full |-> IF Small(c) THEN Src(SegContent(c.segs, i)) ELSE <<>>]>> \o SegSrc(c, i + 1)
 
 EmitD(c, r, a) ==
-  PrintT(<<"CASE", ToJson([segs |-> c.segs, src |-> Src(c.page), bodies |-> LibSrc(c, 2),
+  PrintT(<<"CASE", ToJson([segs |-> SegSrc(c, 1), small |-> Small(c),
                            out |-> r.out, msgs |-> r.st.msgs, cls |-> Cls(r), peak |-> r.st.peak,
                            asis_out |-> a.out, asis_cls |-> Cls(a), asis_peak |-> a.st.peak,
-                           \* the as-is design lets the recursion run far beyond what the ideal design admits
-                           asis_overrun |-> a.st.peak >= 2 * r.st.peak])>>)
+                           \* the as-is design lets the recursion leave the region the ideal design stays in
+                           asis_overrun |-> IsOverrun(a)])>>)
 
 GenInvD ==
   LET r == Run(case, {})
@@ -116,5 +136,5 @@ GenInvD ==
      /\ EmitD(case, r, a)
 
 \* Demo: in the as-is design the recursion depth is not bounded by the limit
-DemoUnbounded == PeakBoundedR(Run(case, AsIsDev))
+DemoUnbounded == LET a == Run(case, AsIsDev) IN PeakBoundedR(a) /\ ~IsOverrun(a)
 =============================================================================
